@@ -56,7 +56,8 @@ def event_rv(item):
 
 
 # ------------------------------------------------------------------------------------ W1
-@harness('W1', targets=['kopf._cogs.clients.watching.continuous_watch', 'kopf._cogs.clients.watching.watch_objs'], props=['C19', 'C03', 'C01', 'C14', 'C17', 'C12'],
+@harness('W1', targets=['kopf._cogs.clients.watching.continuous_watch', 'kopf._cogs.clients.watching.watch_objs'], props=['C19', 'C03', 'C01', 'C14', 'C17', 'C12', 'C20', 'C05', 'C06', 'C07', 'C09', 'C13', 'C15'],
+         prop_clauses={'C20': ['error_raises', 'other_failures_propagate'], 'C05': ['list_first', 'listed_objects_as_none_events', 'error_raises'], 'C06': ['listed_objects_as_none_events', 'known_events_passed_through', 'watch_events_passed_through', 'since_is_last_yielded', 'watch_resumes_from_since'], 'C07': ['since_is_last_yielded', 'watch_resumes_from_since'], 'C09': ['list_first', 'listed_objects_as_none_events', 'known_events_passed_through', 'pause_stops_watching', 'watch_closed_on_pause', 'watch_events_passed_through'], 'C13': ['pause_stops_watching', 'watch_closed_on_pause', 'frame', 'listed_objects_as_none_events', 'known_events_passed_through', 'watch_events_passed_through'], 'C15': ['listed_objects_as_none_events', 'known_events_passed_through', 'watch_events_passed_through']},
          clauses=['list_first', 'listed_objects_as_none_events', 'listed_bookmark', 'since_is_last_yielded',
                   'known_events_passed_through', 'unknown_types_skipped', 'gone_returns', 'error_raises',
                   'listing_connection_errors_return', 'other_failures_propagate', 'pause_stops_watching', 'frame',
@@ -677,7 +678,8 @@ def _w2_infinite(vc):
 
 
 @harness('W2', targets=['kopf._cogs.clients.watching.streaming_block', 'kopf._cogs.clients.watching.infinite_watch'],
-         props=['C13', 'C19', 'C17', 'C12'],
+         props=['C13', 'C19', 'C17', 'C12', 'C20', 'C09', 'C14', 'C01', 'C03'],
+         prop_clauses={'C20': ['block.body_failure_propagates', 'inf.only_429_swallowed', 'inf.other_failures_propagate'], 'C09': ['block.waits_until_unpaused', 'block.waiter_signals_pause', 'inf.requests_only_inside_block', 'inf.passes_the_pause_waiter', 'inf.fresh_listing_per_iteration', 'inf.events_passed_through', 'inf.never_ends_in_production'], 'C14': ['inf.fresh_listing_per_iteration', 'inf.events_passed_through'], 'C01': ['block.waiter_signals_pause', 'inf.passes_the_pause_waiter', 'inf.fresh_listing_per_iteration', 'inf.events_passed_through', 'inf.never_ends_in_production'], 'C03': ['inf.fresh_listing_per_iteration', 'inf.events_passed_through', 'inf.never_ends_in_production']},
          clauses=['block.body_entered_once', 'block.waits_until_unpaused', 'block.waiter_signals_pause', 'block.waiter_released',
                   'block.body_failure_propagates',
                   'inf.requests_only_inside_block', 'inf.passes_the_pause_waiter', 'inf.fresh_listing_per_iteration',
@@ -718,7 +720,8 @@ from pyvc.bounded import bounded
                         'kopf._core.reactor.orchestration.spawn_missing_peerings',
                         'kopf._core.reactor.orchestration.Ensemble.get_keys', 'kopf._core.reactor.orchestration.Ensemble.get_tasks',
                         'kopf._core.reactor.orchestration.Ensemble.del_keys'],
-         props=['C13', 'C19', 'C03', 'C08', 'C14', 'C15', 'C17', 'C20'],
+         props=['C13', 'C19', 'C03', 'C08', 'C14', 'C15', 'C17', 'C20', 'C05'],
+         prop_clauses={'C05': ['one_watch_per_served_pair', 'none_for_anything_else']},
          clauses=['one_watch_per_served_pair', 'none_for_anything_else', 'keys_match_served_pairs', 'stopped_before_deletion',
                   'peering_streams_match', 'paused_iff_mandatory_peering_is_absent'],
          universe='resources {A namespaced, B cluster-scoped | A, C both namespaced} x watched subsets (4) x namespaces: '
